@@ -77,6 +77,13 @@ def classify_return(p: Path, op: str, sel: str) -> Placement:
         if isinstance(b, ast.Call) and call_attr(b) == "reapply_skip" and isinstance(b.func, ast.Attribute) and src(b.func.value) == sel:
             inner = {k.arg: src(k.value) for k in b.keywords if k.arg}
             return Placement("NEST_HOIST", p, {"subquery": inner, **kws})
+        # the operation applied to a re-slotted copy of the Select, nested under a new one
+        if isinstance(b, ast.Call) and call_attr(b) == "_finish_apply" and b.args:
+            x = b.args[0]
+            xb = resolve_name(p, x.id) if isinstance(x, ast.Name) else x
+            if isinstance(xb, ast.Call) and call_attr(xb) == "reapply_skip" and isinstance(xb.func, ast.Attribute) and src(xb.func.value) == sel:
+                inner = {k.arg: src(k.value) for k in xb.keywords if k.arg}
+                return Placement("NEST_HOIST", p, {"subquery": inner, "inner": src(b.func.value) if isinstance(b.func, ast.Attribute) else "?", **kws})
     raise AnalysisError(f"_append_unary_to_select returns `{src(v)[:80]}`: placement not recognised")
 
 
@@ -365,6 +372,43 @@ def r_order_survives(ctx: Ctx, rule: str) -> None:
             run.ok(rule, inst, {"outcomes": [repr(o) for o in outs], "refusals": len(raises)})
 
 
+def r_slice_keeps_its_sort(ctx: Ctx, rule: str) -> None:
+    """A LIMIT/OFFSET cuts the rows in the order of *its own* query level."""
+    run = ctx.run
+    run.rule(
+        rule,
+        "a slice stays with the sort it cuts: whatever operation is applied to a Select that has a sort and a slice, a "
+        "placement that takes the sort out of that Select (to re-attach it to a new outer query) takes the slice along - "
+        "an inner query left with LIMIT/OFFSET but no ORDER BY returns an arbitrary window",
+        expected_min=8,
+    )
+    for f, c, state, outs, raises in placements(ctx):
+        if not (state["has_sort"] and state["has_slice"]):
+            continue
+        inst = f"{c.name}@{_state_label(state)}"
+        bad = None
+        for o in outs:
+            if o.kind != "NEST_HOIST":
+                continue
+            sub = o.detail.get("subquery", {})
+            sort_removed = "sort" in sub and sub["sort"] in ("None", "Sort()")
+            slice_removed = "slice" in sub and sub["slice"] in ("None", "Slice()")
+            if sort_removed and not slice_removed:
+                bad = o
+        if bad is not None:
+            run.fail(
+                rule,
+                inst,
+                f"{bad!r}: the subquery keeps its LIMIT/OFFSET but loses the ORDER BY that decides which rows they select; `sort, slice, {c.name.lower()}` then returns rows from an arbitrary window of the target",
+                fi=f,
+                node=bad.path.node,
+                details=describe(bad.path),
+                facts={"state": state},
+            )
+        else:
+            run.ok(rule, inst, {"outcomes": [repr(o) for o in outs]})
+
+
 def r08_2_compound_guard(ctx: Ctx, rule: str = "R08.2") -> None:
     run, m = ctx.run, ctx.m
     run.rule(
@@ -501,6 +545,11 @@ def r11_3_emission(ctx: Ctx, rule: str = "R11.3") -> None:
                     problem = problem or "OFFSET/LIMIT is applied before ORDER BY"
         elif has_fact(facts, "TRUTH", (f"{sel}.has_sort",), False) and order:
             problem = "order_by is applied although the Select has no sort"
+        elif not order and not has_fact(facts, "TRUTH", (f"{sel}.has_sort",), False):
+            problem = (
+                f"no ORDER BY is emitted on a path that has not established that the Select has no sort (only `not {sel}.has_sort` may skip it): "
+                "row bounds, slices or column sets say nothing about whether the order matters - a one-row window of a sorted relation is decided by the order"
+            )
         if has_fact(facts, "TRUTH", (f"{sel}.slice.start",), True):
             if len(offs) != 1 or src(offs[0][1].args[0] if offs[0][1].args else None) != f"{sel}.slice.start":
                 problem = problem or "OFFSET is not select.slice.start"
